@@ -395,6 +395,83 @@ func c19Chunking(cases *verifx.Cases, thorough bool) {
 	}
 }
 
+// c19ChunkingLarge: the same reader with one of the four messages made large (beyond the 64 KiB the
+// decoder starts with; beyond 1 MiB; several MiB), so that the reader's buffer has grown - and holds
+// read-ahead of the following messages - when the large message is handed over.  The stream arrives in
+// one piece, or cut at the end of the large message, inside the message after it, or one byte early.
+func c19ChunkingLarge(cases *verifx.Cases) {
+	for _, size := range []int{70 << 10, 1<<20 + 10, 5 << 19} {
+		pad := strings.Repeat("x", size)
+		for big := 0; big < 4; big++ {
+			texts := []string{
+				`{"jsonrpc":"2.0","id":1,"method":"ping"}`,
+				`{"jsonrpc":"2.0","method":"notifications/initialized","params":{"a":"x\r\ny"}}`,
+				`{"jsonrpc":"2.0","id":"s","result":{"content":[]}}`,
+				`{"jsonrpc":"2.0","id":9007199254740993,"error":{"code":-32601,"message":"nope"}}`,
+			}
+			switch big {
+			case 0:
+				texts[0] = `{"jsonrpc":"2.0","id":1,"method":"ping","params":{"pad":"` + pad + `"}}`
+			case 1:
+				texts[1] = `{"jsonrpc":"2.0","method":"notifications/initialized","params":{"a":"` + pad + `"}}`
+			case 2:
+				texts[2] = `{"jsonrpc":"2.0","id":"s","result":{"content":[{"type":"text","text":"` + pad + `"}]}}`
+			case 3:
+				texts[3] = `{"jsonrpc":"2.0","id":9007199254740993,"error":{"code":-32601,"message":"nope","data":"` + pad + `"}}`
+			}
+			var want [][]byte
+			for _, t := range texts {
+				m, err := jsonrpc2.DecodeMessage([]byte(t))
+				if err != nil {
+					panic(err)
+				}
+				w, _ := jsonrpc2.EncodeMessage(m)
+				want = append(want, w)
+			}
+			for _, eol := range []string{"\n", "\r\n"} {
+				stream := strings.Join(texts, eol) + eol
+				end := 0 // offset just behind the large message's line end
+				for k := 0; k <= big; k++ {
+					end += len(texts[k]) + len(eol)
+				}
+				for _, cut := range []int{len(stream), end, min(end+7, len(stream)), end - 1, end - len(eol)} {
+					idx, mine := cases.Next()
+					if !mine {
+						continue
+					}
+					desc := fmt.Sprintf("message %d of 4 is %d bytes long, eol=%q, stream of %d bytes cut at %d (the large message ends at %d)", big+1, len(texts[big]), eol, len(stream), cut, end)
+					rd := &c19ChunkReader{chunks: [][]byte{[]byte(stream[:cut]), []byte(stream[cut:])}}
+					conn, _ := (&IOTransport{Reader: rd, Writer: c19NopWriter{}}).Connect(context.Background())
+					bad := ""
+					for k := 0; k <= len(want) && bad == ""; k++ {
+						got, err := conn.Read(context.Background())
+						switch {
+						case k == len(want):
+							if err == nil {
+								bad = "a fifth message was read from a stream of four"
+							} else if !errors.Is(err, io.EOF) {
+								bad = fmt.Sprintf("after the four messages the stream ended with %v, want EOF", err)
+							}
+						case err != nil:
+							bad = fmt.Sprintf("message %d of 4: %v", k+1, err)
+						default:
+							if g, _ := jsonrpc2.EncodeMessage(got); !bytes.Equal(g, want[k]) {
+								bad = fmt.Sprintf("message %d of 4 read as %.80s..., sent %.80s...", k+1, g, want[k])
+							}
+						}
+					}
+					conn.Close()
+					if bad != "" {
+						cases.Violate(idx, fmt.Sprintf("c19 ndjson-chunking-large eol=%q", eol), bad+" ["+desc+"]", 3)
+						continue
+					}
+					cases.Record(idx, fmt.Sprintf("large message %d eol=%q ok", big+1, eol), 3, func() string { return desc })
+				}
+			}
+		}
+	}
+}
+
 // c19HoldBody delivers the given pieces, one per Read, and then stays open (silent) until closed,
 // like the body of a hanging GET.
 type c19HoldBody struct {
@@ -1275,6 +1352,7 @@ func TestVerifC19(t *testing.T) {
 		}
 	}
 	c19Chunking(env.NewCases(res, "ndjson-reader-chunking"), !env.Quick())
+	c19ChunkingLarge(env.NewCases(res, "ndjson-reader-chunking/large-messages"))
 	c19SSEClientChunking(t, env.NewCases(res, "sse-client-reader-chunking"), !env.Quick())
 	cc := env.NewCases(res, "content-and-required-members")
 	c19CheckContents(cc)
